@@ -89,6 +89,8 @@ def random_program(rng, nfns=3, ncls=2, max_calls=2, p_false=0.15, plain_sub=Fal
                 else:
                     # bodies run bare must terminate: a method body only calls 'later' methods (never functions)
                     later = [(i, mm) for i, cc in enumerate(inst_cls) if cc > c for mm in range(nmeth[cc])]
+                    # ... or a later method of ANY instance of the same class (the same method set on another object)
+                    later += [(i, mm) for i, cc in enumerate(inst_cls) if cc == c for mm in range(m + 1, nmeth[c])]
                     if later:
                         acts.append(call_meth(*rng.choice(later)))
             meths.append({"guarded": guarded[c][m], "body": acts})
